@@ -11,22 +11,55 @@ structure Cx where
   rs : List (List LItem)
   N : List Src.Node
   hlab : (labelIds rs.flatten).Nodup
+  /-- the copy under which the collected items stand in `rs` (the identity for the routines; inside a macro expansion: private
+  labels, substituted parameters, `Return` as a jump to the end label) -/
+  cp : Copy := {}
   /-- the label zone of the node table: the nodes `allocLabels` made have indices below `Z` -/
-  Z : Nat := 0
+  Z : Nat → Prop := fun _ => False
   /-- the label table of the front end at the end: user label name ↦ label number -/
   named : List (String × Nat) := []
   /-- the user labels defined somewhere in the program -/
   defs : List String := []
+  /-- the macros of the source program -/
+  sm : List Src.Macro := []
+  /-- the compiled macros visible to the statements being collected -/
+  cm : Macros := []
 
 /-- the environments of the translation: no macro substitution, no macro to return from, label nodes in the label zone -/
 structure EnvOK (cx : Cx) (env : Src.Env) : Prop where
-  subst : env.subst = []
-  ret : env.ret = none
-  dense : ∀ n i, env.labels.lookup n = some i → 0 < i ∧ i < cx.Z
+  /-- the parameters as copied are the parameters as substituted by the environment -/
+  ev : ∀ (n : String) (ps : List ESV.Param), (⟨n, convParams (ps.map cx.cp.sub)⟩ : Ev) = Src.substEv env.subst ⟨n, convParams ps⟩
+  /-- `return` leaves a macro exactly inside an expansion -/
+  ret : env.ret.isSome = cx.cp.ret.isSome
+  dense : ∀ n i, env.labels.lookup n = some i → cx.Z i
 
-theorem envOK_empty (cx : Cx) : EnvOK cx {} := ⟨rfl, rfl, fun n i h => by cases h⟩
+theorem substEv_nil' (e : Ev) : Src.substEv [] e = e := by
+  obtain ⟨n, ps⟩ := e
+  simp only [Src.substEv]
+  congr 1
+  induction ps with
+  | nil => rfl
+  | cons p r ih =>
+    simp only [List.map_cons, ih]
+    congr 1
+    cases p <;> rfl
 
-theorem EnvOK.plain {cx : Cx} {env : Src.Env} (h : EnvOK cx env) : PlainEnv env := ⟨h.1, h.2⟩
+theorem envOK_empty (cx : Cx) (hcp : cx.cp = {}) : EnvOK cx {} :=
+  ⟨fun n ps => by (rw [hcp, substEv_nil']; try (show (⟨n, convParams (ps.map id)⟩ : Ev) = _; rw [List.map_id])), by rw [hcp], fun n i h => by cases h⟩
+
+theorem EnvOK.retNone {cx : Cx} {env : Src.Env} (h : EnvOK cx env) (hr : env.ret = none) : cx.cp.ret = none := by
+  have := h.ret
+  rw [hr] at this
+  cases hc : cx.cp.ret with
+  | none => rfl
+  | some e => rw [hc] at this; cases this
+
+theorem EnvOK.retSome {cx : Cx} {env : Src.Env} (h : EnvOK cx env) {kr : Nat} (hr : env.ret = some kr) : ∃ e, cx.cp.ret = some e := by
+  have := h.ret
+  rw [hr] at this
+  cases hc : cx.cp.ret with
+  | none => rw [hc] at this; cases this
+  | some e => exact ⟨e, rfl⟩
 
 abbrev EE (cx : Cx) (m : Nat) (p : LPos) (n : Nat) : Prop := E (labLTS cx.rs) (nodeLTS cx.N) m p n
 abbrev GG (cx : Cx) (j m : Nat) (p : LPos) (n : Nat) : Prop := G (labLTS cx.rs) (nodeLTS cx.N) j (E (labLTS cx.rs) (nodeLTS cx.N) m) p n
@@ -120,10 +153,12 @@ theorem loop_ind {cx : Cx} {P : LPos} {h : Nat} (Hyp : Nat → Nat → Prop)
 
 structure ExitsOK (cx : Cx) (m j : Nat) (s : St) (env : Src.Env) : Prop where
   loop : ∀ cl bl rest, s.loops = (cl, bl) :: rest → ∃ kc kb, env.cont = some kc ∧ env.brkLoop = some kb ∧
-    R2 cx m j (target cx.rs cl) kc ∧ R2 cx m j (target cx.rs bl) kb
-  case : ∀ e rest, s.cases = e :: rest → ∃ kb, env.brk = some kb ∧ R2 cx m j (target cx.rs e) kb
+    R2 cx m j (target cx.rs (cx.cp.σ cl)) kc ∧ R2 cx m j (target cx.rs (cx.cp.σ bl)) kb
+  case : ∀ e rest, s.cases = e :: rest → ∃ kb, env.brk = some kb ∧ R2 cx m j (target cx.rs (cx.cp.σ e)) kb
   /-- a user label of the program and its node -/
-  labs : ∀ n id, n ∈ cx.defs → cx.named.lookup n = some id → ∃ i, env.labels.lookup n = some i ∧ R2 cx m j (target cx.rs id) i
+  labs : ∀ n id, n ∈ cx.defs → cx.named.lookup n = some id → ∃ i, env.labels.lookup n = some i ∧ R2 cx m j (target cx.rs (cx.cp.σ id)) i
+  /-- inside a macro expansion: the end label of the expansion and the node behind the macro call -/
+  ret : ∀ kr e, env.ret = some kr → cx.cp.ret = some e → R2 cx m j (target cx.rs e) kr
 
 theorem ExitsOK.down {cx : Cx} {m j m' : Nat} (j' : Nat) {s : St} {env : Src.Env} (h : ExitsOK cx m j s env) (hlt : m' < m) :
     ExitsOK cx m' j' s env :=
@@ -135,7 +170,8 @@ theorem ExitsOK.down {cx : Cx} {m j m' : Nat} (j' : Nat) {s : St} {env : Src.Env
     exact ⟨kb, a, b.down j' hlt⟩,
    fun n id hn hid => by
     obtain ⟨i, a, b⟩ := h.labs n id hn hid
-    exact ⟨i, a, b.down j' hlt⟩⟩
+    exact ⟨i, a, b.down j' hlt⟩,
+   fun kr e h1 h2 => (h.ret kr e h1 h2).down j' hlt⟩
 
 theorem ExitsOK.monoJ {cx : Cx} {m j j' : Nat} {s : St} {env : Src.Env} (h : ExitsOK cx m j s env) (hle : j' ≤ j) :
     ExitsOK cx m j' s env :=
@@ -147,11 +183,12 @@ theorem ExitsOK.monoJ {cx : Cx} {m j j' : Nat} {s : St} {env : Src.Env} (h : Exi
     exact ⟨kb, a, b.monoJ hle⟩,
    fun n id hn hid => by
     obtain ⟨i, a, b⟩ := h.labs n id hn hid
-    exact ⟨i, a, b.monoJ hle⟩⟩
+    exact ⟨i, a, b.monoJ hle⟩,
+   fun kr e h1 h2 => (h.ret kr e h1 h2).monoJ hle⟩
 
 theorem ExitsOK.same {cx : Cx} {m j : Nat} {s s1 : St} {env : Src.Env} (h : ExitsOK cx m j s env) (hl : s1.loops = s.loops)
     (hc : s1.cases = s.cases) : ExitsOK cx m j s1 env :=
-  ⟨fun cl bl rest hs => h.loop cl bl rest (by rw [← hl]; exact hs), fun e rest hs => h.case e rest (by rw [← hc]; exact hs), h.labs⟩
+  ⟨fun cl bl rest hs => h.loop cl bl rest (by rw [← hl]; exact hs), fun e rest hs => h.case e rest (by rw [← hc]; exact hs), h.labs, h.ret⟩
 
 /-! ### the statement about a collected piece -/
 
@@ -161,7 +198,7 @@ theorem ExitsOK.same {cx : Cx} {m j : Nat} {s s1 : St} {env : Src.Env} (h : Exit
 is at the continuation of the label statement (`kn`: what the node was set to) -/
 def LabExport (cx : Cx) (env : Src.Env) (m j : Nat) (b b' : Src.B) : Prop :=
   ∀ i kn, i < (tbl b).length → (tbl b')[i]? = some (.silent kn) → (tbl b')[i]? ≠ (tbl b)[i]? →
-    ∃ n id P nm, env.labels.lookup n = some i ∧ cx.named.lookup n = some id ∧ itemAt cx.rs P = some (.label id nm) ∧ R2 cx m j P.next kn
+    ∃ n id P nm, env.labels.lookup n = some i ∧ cx.named.lookup n = some id ∧ ItemC cx.cp cx.rs P (.label id nm) ∧ R2 cx m j P.next kn
 
 /-- the export of a part of the translation, on a shorter table that agrees with it -/
 theorem LabExport.mono {cx : Cx} {env : Src.Env} {m j : Nat} {b b' b1 b1' : Src.B} (h : LabExport cx env m j b1 b1')
@@ -189,7 +226,7 @@ theorem Pushes.trans {a b c : Src.B} (h1 : Pushes a b) (h2 : Pushes b c) : Pushe
   obtain ⟨y, hy⟩ := h2
   exact ⟨x ++ y, by rw [hy, hx, List.append_assoc]⟩
 theorem Pushes.push (b : Src.B) (n : Src.Node) : Pushes b (b.push n).1 := ⟨[n], (tbl_push b n).1⟩
-theorem Pushes.grow {Z : Nat} {b b' : Src.B} (h : Pushes b b') : Grow Z b b' := by
+theorem Pushes.grow {Z : Nat → Prop} {b b' : Src.B} (h : Pushes b b') : Grow Z b b' := by
   obtain ⟨x, hx⟩ := h; exact Grow.of_append hx
 theorem Pushes.same {b b' : Src.B} (h : Pushes b b') {i : Nat} (hi : i < (tbl b).length) : (tbl b')[i]? = (tbl b)[i]? := by
   obtain ⟨x, hx⟩ := h; rw [hx, List.getElem?_append_left hi]
@@ -215,11 +252,11 @@ structure PieceOK (cx : Cx) (items : List LItem) (s s' : St) (trf : Nat → Src.
   empty : items = [] → ∀ k b, trf k b = (b, k)
   /-- a piece that is one `Jump` (`_process_block` may fold it into the header jumps): the statement goes to an exit -/
   lone : ∀ l, loneJump items = some (some l) → ∀ m j, ExitsOK cx m j s env → NamedIn cx s' → ∃ n, (∀ k b, trf k b = (b, n)) ∧
-    R2 cx m j (target cx.rs l) n
+    R2 cx m j (target cx.rs (cx.cp.σ l)) n
   grow : ∀ k b, Grow cx.Z b (trf k b).1
   /-- entry position and entry node agree; and every label node the translation set belongs to a label item, behind which
   control is at the continuation of the label statement -/
-  full : ∀ r i0, Placed cx.rs r i0 items → afterCtxL cx.rs ⟨r, i0⟩ = false → ∀ k b, AgreeOn cx.N cx.Z b (trf k b).1 →
+  full : ∀ r i0, Placed cx.cp cx.rs r i0 items → afterCtxL cx.rs ⟨r, i0⟩ = false → ∀ k b, AgreeOn cx.N cx.Z b (trf k b).1 →
     ∀ m j, ExitsOK cx m j s env → NamedIn cx s' → (falls items = true → R2 cx m j ⟨r, i0 + items.length⟩ k) →
       R2 cx m j ⟨r, i0⟩ (trf k b).2 ∧ LabExport cx env m j b (trf k b).1
 
@@ -227,13 +264,13 @@ theorem PieceOK.stk {cx : Cx} {items : List LItem} {s s' : St} {trf : Nat → Sr
     (h : PieceOK cx items s s' trf env) : SameStk s s' := ⟨h.loops, h.cases, h.named⟩
 
 theorem PieceOK.corr {cx : Cx} {items : List LItem} {s s' : St} {trf : Nat → Src.B → Src.B × Nat} {env : Src.Env}
-    (h : PieceOK cx items s s' trf env) (r i0 : Nat) (hp : Placed cx.rs r i0 items) (hpre : afterCtxL cx.rs ⟨r, i0⟩ = false) (k : Nat) (b : Src.B)
+    (h : PieceOK cx items s s' trf env) (r i0 : Nat) (hp : Placed cx.cp cx.rs r i0 items) (hpre : afterCtxL cx.rs ⟨r, i0⟩ = false) (k : Nat) (b : Src.B)
     (hag : AgreeOn cx.N cx.Z b (trf k b).1) (m j : Nat) (hex : ExitsOK cx m j s env) (hin : NamedIn cx s')
     (hcont : falls items = true → R2 cx m j ⟨r, i0 + items.length⟩ k) : R2 cx m j ⟨r, i0⟩ (trf k b).2 :=
   (h.full r i0 hp hpre k b hag m j hex hin hcont).1
 
 theorem PieceOK.labs {cx : Cx} {items : List LItem} {s s' : St} {trf : Nat → Src.B → Src.B × Nat} {env : Src.Env}
-    (h : PieceOK cx items s s' trf env) (r i0 : Nat) (hp : Placed cx.rs r i0 items) (hpre : afterCtxL cx.rs ⟨r, i0⟩ = false) (k : Nat) (b : Src.B)
+    (h : PieceOK cx items s s' trf env) (r i0 : Nat) (hp : Placed cx.cp cx.rs r i0 items) (hpre : afterCtxL cx.rs ⟨r, i0⟩ = false) (k : Nat) (b : Src.B)
     (hag : AgreeOn cx.N cx.Z b (trf k b).1) (m j : Nat) (hex : ExitsOK cx m j s env) (hin : NamedIn cx s')
     (hcont : falls items = true → R2 cx m j ⟨r, i0 + items.length⟩ k) : LabExport cx env m j b (trf k b).1 :=
   (h.full r i0 hp hpre k b hag m j hex hin hcont).2
@@ -262,7 +299,7 @@ theorem falls_append (a b : List LItem) (hb : b ≠ []) (ha : lastNotCtx a = tru
           simpa [lastNotCtx, this] using ha
         simp [Comp.endsFlow, ctx_item_tie, hz]
 
-theorem afterCtxL_after {rs : List (List LItem)} {r i0 : Nat} {a : List LItem} (hp : Placed rs r i0 a) (hne : a ≠ [])
+theorem afterCtxL_after {c : Copy} {rs : List (List LItem)} {r i0 : Nat} {a : List LItem} (hp : Placed c rs r i0 a) (hne : a ≠ [])
     (ha : lastNotCtx a = true) : afterCtxL rs ⟨r, i0 + a.length⟩ = false := by
   obtain ⟨x, hx⟩ : ∃ x, a.getLast? = some x := by
     cases h : a.getLast? with
@@ -273,7 +310,7 @@ theorem afterCtxL_after {rs : List (List LItem)} {r i0 : Nat} {a : List LItem} (
   have hit := hp.item hget
   have hc : isCtxL x = false := by simpa [lastNotCtx, hx] using ha
   have e : i0 + a.length = (i0 + (a.length - 1)) + 1 := by omega
-  rw [e, afterCtxL_succ, hit]
+  rw [e, afterCtxL_itemC hit]
   exact hc
 
 theorem lastNotCtx_append' (a b : List LItem) (ha : lastNotCtx a = true) (hb : lastNotCtx b = true) : lastNotCtx (a ++ b) = true :=
